@@ -7,3 +7,11 @@ pub(crate) use bucket_leap_array::*;
 pub(crate) use leap_array::*;
 pub(crate) use metric_bucket::*;
 pub(crate) use sliding_window_metric::*;
+
+#[cfg(feature = "verif_hooks")]
+pub use self::{
+    bucket_leap_array::BucketLeapArray,
+    leap_array::{BucketWrap, LeapArray},
+    metric_bucket::{MetricBucket, MetricTrait},
+    sliding_window_metric::SlidingWindowMetric,
+};
